@@ -80,10 +80,10 @@ Qed.
    [forallb] over the 8192-element list it starts unrolling the list and does not come back. *)
 Lemma all_plugins_subscription :
   forallb (subscription_exact_t handler_events) (plugins_upto num_plugins) = true.
-Proof. vm_compute. reflexivity. Qed.
+Proof. vm_cast_no_check (@eq_refl bool true). Qed.
 
 Lemma all_plugins_handlers : forallb handlers_exact (plugins_upto num_plugins) = true.
-Proof. vm_compute. reflexivity. Qed.
+Proof. vm_cast_no_check (@eq_refl bool true). Qed.
 
 Lemma forallb_in {A} (f : A -> bool) l : forallb f l = true -> forall x, In x l -> f x = true.
 Proof. intros H. apply forallb_forall. exact H. Qed.
@@ -318,18 +318,21 @@ Qed.
 (* ---- the executable predicates of Spec/StubSpec.v hold of the model ------ *)
 
 (* setupHandlers computes the reference mask, for every plugin type (complete sweep) *)
-Lemma all_plugins_ref_mask :
-  forallb (fun p => (stub_events p =? ref_mask p)%Z && Bool.eqb (new_ok p) (ref_new_ok p))
-          (plugins_upto num_plugins) = true.
-Proof. vm_compute. reflexivity. Qed.
+Lemma all_plugins_ref_mask : forallb (ref_ok handler_events) (plugins_upto num_plugins) = true.
+Proof. vm_cast_no_check (@eq_refl bool true). Qed.
+
+Lemma ref_ok_elim he p : ref_ok he p = true -> stub_events p = ref_mask_t he p /\ new_ok p = ref_new_ok p.
+Proof.
+  unfold ref_ok. intros A. apply andb_true_iff in A. destruct A as [A B].
+  split; [apply Z.eqb_eq; exact A|apply eqb_prop; exact B].
+Qed.
 
 Lemma stub_events_ref p : (p < num_plugins)%N -> stub_events p = ref_mask p /\ new_ok p = ref_new_ok p.
 Proof.
   intros Hp.
-  pose proof (forallb_in (fun p => (stub_events p =? ref_mask p)%Z && Bool.eqb (new_ok p) (ref_new_ok p))
-                         (plugins_upto num_plugins) all_plugins_ref_mask p (in_plugins_upto num_plugins p Hp)) as A.
-  cbv beta in A. apply andb_true_iff in A. destruct A as [A B].
-  split; [apply Z.eqb_eq; exact A|apply eqb_prop; exact B].
+  exact (ref_ok_elim handler_events p
+           (forallb_in (ref_ok handler_events) (plugins_upto num_plugins) all_plugins_ref_mask p
+                       (in_plugins_upto num_plugins p Hp))).
 Qed.
 
 Lemma holds_cfg_m_configure ev hook : holds_cfg_m ev hook (configure_with ev hook) = true.
